@@ -23,6 +23,11 @@ TEXT = {
         note="Trusts the controlled informer's fan-out (real sharedEventHandler is used). Related-object over-notification is allowed (statement is one-directional there).",
         technique="bounded-exhaustive enumeration of event shapes x roles x configurations on the real handlers (explicit-state, no sampling)",
     ),
+    "C11": dict(
+        level="Bounded-exhaustive model checking of the parent status path of one composite sync: all combinations of hook status shapes, divergence between cached and live parent, conflicts caused at every retry, injected errors and child failures; every status PUT is judged against the logged pre-state (endpoint, body equals live object outside status, target = hook status + generation sent to the hook, UID never differs), the stored parent is diffed before/after.",
+        note="Only parents with a status subresource (metacontroller refuses others, see C20). Whether a child error survives a benign end of the status path is left to C12.",
+        technique="bounded-exhaustive enumeration of inputs x environment deviations (caused conflicts, injected faults) on the real code, request-log oracle",
+    ),
 }
 
 PENDING_REASON = "check not built yet in this session (planned in DESIGN.md §4); no claim is made until its check runs clean on the unchanged tree"
